@@ -15,7 +15,7 @@ def H(name, oblig, kind='proof', bound='', tier='quick', witness_for=None, funct
                 functions=list(functions))
 
 
-HOOK_COMMITS = ['3254cbd2']
+HOOK_COMMITS = ['3254cbd2', '27e1b456', '140569c3', '6e63a402']
 
 PROPS = {
     'C22': dict(
@@ -28,6 +28,19 @@ PROPS = {
         kani=[],
         explanation='Verus proves the step contract of the real Subscription::update_state for all states/inputs and the '
                     'two history lemmas by induction over that contract',
+    ),
+    'C23': dict(
+        title='Revised subscription and monitored item parameters respect the limits',
+        level='proof',
+        level_text='Complete proof by Kani/CBMC: loop-free harnesses call the real revise_subscription_values / sanitize_sampling_interval / sanitize_queue_size with every requested value (all f64 bit patterns incl. NaN/inf/-0, all u32/usize) and every limit configuration Server::new can establish, and assert the five range statements of the property plus "valid requests are kept"',
+        level_note='Assumed: configured minimum intervals are finite and >= 0 (ServerConfig does not validate them); default/max keep-alive and max lifetime satisfy 1 <= default <= max, max_lifetime == 3*max as set in server.rs:174-176. ServerState is built by the cfg hook ServerState::verif_minimal (no clock/PKI/locks).',
+        technique='Kani function-level contract harnesses over kani::any inputs on the real crate, loop-free => unbounded',
+        kani=[
+            H('c23::c23_revise_subscription_values', 'C23.revise', functions=['lib/src/server/services/subscription.rs:SubscriptionService::revise_subscription_values']),
+            H('c23::c23_sanitize_sampling_interval', 'C23.sampling', functions=['lib/src/server/subscriptions/monitored_item.rs:MonitoredItem::sanitize_sampling_interval']),
+            H('c23::c23_sanitize_queue_size', 'C23.queue', functions=['lib/src/server/subscriptions/monitored_item.rs:MonitoredItem::sanitize_queue_size']),
+        ],
+        explanation='loop-free full-domain harnesses: complete proofs',
     ),
     'C37': dict(
         title='Reconnect back-off follows its policy and never overflows',
